@@ -122,6 +122,18 @@ API_ATOMS = [
     [("wfail", 3), ("cmd", "ac_toggle")],
     [("cmd", "zone_setpoint_300")],        # struct.error kind, through the public API
     [("cmd", "zone_setpoint_nan")],        # ValueError kind (AT5) / refused locally (AT4)
+    # other values no wire format has room for, sent at once and held during an outage
+    [("cmd", "zone_setpoint_inf")], [("cmd", "ac_setpoint_inf")], [("cmd", "zone_setpoint_huge")],
+    [("cmd", "timer_huge")], [("cmd", "zone_damper_float")],
+    [("net", "refuse", 0.0), ("fin",), ("q",), ("cmd", "zone_setpoint_inf")],
+    [("net", "refuse", 0.0), ("fin",), ("q",), ("cmd", "ac_setpoint_inf"), ("cmd", "ac_on")],
+    [("net", "refuse", 0.0), ("rst",), ("q",), ("cmd", "zone_setpoint_huge")],
+    [("net", "refuse", 0.0), ("fin",), ("q",), ("cmd", "zone_setpoint_300")],
+    [("net", "refuse", 0.0), ("fin",), ("q",), ("cmd", "zone_setpoint_inf"),
+     ("cmd", "zone_setpoint_inf")],
+    [("net", "refuse", 0.0), ("rst",), ("q",), ("cmd", "zone_setpoint_inf"), ("cmd", "ac_on"),
+     ("cmd", "zone_setpoint_inf"), ("cmd", "zone_damper")],
+    [("net", "refuse", 0.0), ("fin",), ("q",), ("cmd", "zone_setpoint_nan"), ("cmd", "timer_huge")],
     [("fin",), ("cmd", "ac_on"), ("cmd", "zone_damper")],
     [("rst",), ("cmd", "ac_on")],
     [("sub_raise",), ("status_change",)],
@@ -488,7 +500,19 @@ def run_api(case):
                     await zone.set_target_temperature(300)
                 elif name == "zone_setpoint_nan":
                     await zone.set_target_temperature(float("nan"))
-            except (ValueError, psock_errors) as e:
+                elif name == "zone_setpoint_inf":
+                    await zone.set_target_temperature(float("inf"))
+                elif name == "ac_setpoint_inf":
+                    await ac.set_target_temperature(float("-inf"))
+                elif name == "zone_setpoint_huge":
+                    await zone.set_target_temperature(1e300)
+                elif name == "timer_huge":
+                    import datetime
+                    await ac.set_quick_timer(api.AcTimerType.OFF_TIMER,
+                                             datetime.timedelta(days=400000))
+                elif name == "zone_damper_float":
+                    await zone.set_damper_percentage(40.5)
+            except (ValueError, ArithmeticError, TypeError, psock_errors) as e:
                 log.add("API.raise", name=name, exc=repr(e))
 
         def bump():
